@@ -475,4 +475,123 @@ theorem entry_exec_ret (c : Cfg) (σ : St) (next sp : Nat) (hsp : (σ.get 4).toN
     rw [get_set_ne _ _ _ _ (Ne.symm hq)]
     rfl
 
+-- the log and the misalignment counter: only `call reg` touches them ------------------------------------------------
+
+/-- the call log and the misalignment counter -/
+def entry_lm (σ : St) : List (Nat × List (BitVec 64)) × Nat := (σ.log, σ.misaligned)
+
+@[simp] theorem entry_lm_set (σ : St) (r : Nat) (v : BitVec 64) : entry_lm (σ.set r v) = entry_lm σ := rfl
+
+@[simp] theorem entry_lm_writeSized (σ : St) (sz r v : Nat) : entry_lm (X86.writeSized σ sz r v) = entry_lm σ := by
+  unfold X86.writeSized; split <;> rfl
+
+theorem entry_push_lm (σ σ' : St) (v : BitVec 64) (h : X86.push σ v = some σ') : entry_lm σ' = entry_lm σ := by
+  unfold X86.push at h
+  simp only at h
+  split at h
+  · simp only [Option.some.injEq] at h
+    subst h
+    rfl
+  · simp at h
+
+theorem entry_pop_lm (σ σ' : St) (v : BitVec 64) (h : X86.pop σ = some (v, σ')) : entry_lm σ' = entry_lm σ := by
+  unfold X86.pop at h
+  simp only at h
+  split at h
+  · simp only [Option.some.injEq, Prod.mk.injEq] at h
+    rw [← h.2]; rfl
+  · simp at h
+
+theorem entry_exec_lm (c : Cfg) (σ σ' : St) (i : Instr) (next : Nat) (hi : ∀ r, i ≠ .callReg r)
+    (h : exec c σ i next = .next σ' ∨ ∃ v, exec c σ i next = .done v σ') : entry_lm σ' = entry_lm σ := by
+  unfold exec at h
+  cases i <;> simp only at h
+  case callReg r => exact absurd rfl (hi r)
+  case push r =>
+    split at h
+    · next s' hs =>
+      simp only [Out.next.injEq, reduceCtorEq, exists_false, or_false] at h; subst h
+      have h2 := entry_push_lm _ _ _ hs
+      exact h2
+    · simp at h
+  case pop r =>
+    split at h
+    · next v s' hs =>
+      simp only [Out.next.injEq, reduceCtorEq, exists_false, or_false] at h; subst h
+      have h2 := entry_pop_lm _ _ _ hs
+      rw [entry_lm_set]; exact h2
+    · simp at h
+  case aluRR w op src dst =>
+    simp only [Out.next.injEq, reduceCtorEq, exists_false, or_false] at h; subst h
+    split
+    · rw [entry_lm_writeSized]; rfl
+    · rfl
+  case aluRI w op dst imm =>
+    simp only [Out.next.injEq, reduceCtorEq, exists_false, or_false] at h; subst h
+    split
+    · rw [entry_lm_writeSized]; rfl
+    · rfl
+  case movabs dst imm => simp only [Out.next.injEq, reduceCtorEq, exists_false, or_false] at h; subst h; rfl
+  case shiftI sz op dst n => simp only [Out.next.injEq, reduceCtorEq, exists_false, or_false] at h; subst h; simp; rfl
+  case shiftCl w op dst => simp only [Out.next.injEq, reduceCtorEq, exists_false, or_false] at h; subst h; simp; rfl
+  case neg w dst => simp only [Out.next.injEq, reduceCtorEq, exists_false, or_false] at h; subst h; simp; rfl
+  case mul w src => simp only [Out.next.injEq, reduceCtorEq, exists_false, or_false] at h; subst h; simp; rfl
+  case div w src =>
+    repeat' split at h
+    all_goals first
+      | (simp at h; done)
+      | (simp only [Out.next.injEq, reduceCtorEq, exists_false, or_false] at h; subst h; simp; rfl)
+  case bswap w dst => simp only [Out.next.injEq, reduceCtorEq, exists_false, or_false] at h; subst h; rfl
+  case load sz dst base disp =>
+    split at h
+    · simp only [Out.next.injEq, reduceCtorEq, exists_false, or_false] at h; subst h; rfl
+    · simp at h
+  case store sz src base disp =>
+    split at h
+    · simp only [Out.next.injEq, reduceCtorEq, exists_false, or_false] at h; subst h; rfl
+    · simp at h
+  case storeI sz base disp imm =>
+    split at h
+    · simp only [Out.next.injEq, reduceCtorEq, exists_false, or_false] at h; subst h; rfl
+    · simp at h
+  case lockAdd w src base disp =>
+    split at h
+    · split at h
+      · simp only [Out.next.injEq, reduceCtorEq, exists_false, or_false] at h; subst h; rfl
+      · simp at h
+    · simp at h
+  case cmovz dst src =>
+    split at h
+    · simp only [Out.next.injEq, reduceCtorEq, exists_false, or_false] at h; subst h; split <;> rfl
+    · simp at h
+  case jcc cc rel =>
+    split at h
+    · simp only [Out.next.injEq, reduceCtorEq, exists_false, or_false] at h; subst h; split <;> rfl
+    · simp at h
+  case jmp rel => simp only [Out.next.injEq, reduceCtorEq, exists_false, or_false] at h; subst h; rfl
+  case call rel =>
+    split at h
+    · next s' hs =>
+      simp only [Out.next.injEq, reduceCtorEq, exists_false, or_false] at h; subst h
+      have h2 := entry_push_lm _ _ _ hs
+      exact h2
+    · simp at h
+  case ret =>
+    split at h
+    · next a s' hs =>
+      have h2 := entry_pop_lm _ _ _ hs
+      split at h
+      · simp only [reduceCtorEq, Out.done.injEq, false_or] at h
+        obtain ⟨v, -, rfl⟩ := h
+        exact h2
+      · simp only [Out.next.injEq, reduceCtorEq, exists_false, or_false] at h; subst h
+        exact h2
+    · simp at h
+
+/-- a step at a place where the code decodes to something other than `call reg` -/
+theorem entry_step_lm (c : Cfg) (σ σ' : St) (a n : Nat) (x : Instr) (hrip : σ.rip = c.codeBase + a)
+    (hdec : decode (window c.code a) = some (x, n)) (hx : ∀ r, x ≠ .callReg r)
+    (h : step c σ = .next σ' ∨ ∃ v, step c σ = .done v σ') : entry_lm σ' = entry_lm σ := by
+  rw [step_at c σ a n x hrip hdec] at h
+  exact entry_exec_lm c σ σ' x _ hx h
 end Rbpf.JitSim
